@@ -3,7 +3,7 @@ evidence, known findings."""
 import json, os, subprocess, sys, time, random, hashlib, re, shutil
 
 VERIF = os.path.dirname(os.path.dirname(os.path.abspath(__file__)))
-REPO = "/repo"
+REPO = os.environ.get("VERIF_REPO", "/repo")   # overridden only by tools/seed_matrix.py (scratch copies)
 WORK = os.path.join(VERIF, "work")
 TARGET = os.path.join(VERIF, "target", "harness")
 HARNESS = os.path.join(TARGET, "release", "plonk-harness")
